@@ -73,6 +73,24 @@ def accumulator_names(fn, loop):
     return out
 
 
+def own_channel_list(cx, fn=None, p=None, rule='PAIR'):
+    """the channel list bound in the returned callable (and reported in the full output) is the function's own: a copy
+    (or a new one-element list), never the caller's list object, which the caller may reorder or reuse afterwards while
+    the returned callable is still in use"""
+    if fn is None:
+        fn = Fn(cx, 'mef.get_transform_fxn')
+        parts = [c for c in fn.calls('functools.partial')]
+        cx.need(len(parts) == 1, 'mef.get_transform_fxn: expected one functools.partial')
+        p = parts[0]
+    own = [d for d in fn.rd.reaching(fn.node(p), 'mef_channels')]
+    vals = [fn.rd.assigned_value(d, 'mef_channels') if d.kind != 'entry' else None for d in own]
+    ok = bool(own) and all(d.kind != 'entry' for d in own) and all(
+        v is not None and sym.norm(v) in (sym.norm('list(mef_channels)'), sym.norm('[mef_channels]')) for v in vals)
+    fn.ob(rule, 'the channel list bound in the callable is a list of the function\'s own (copy of the caller\'s, or a new one-element list)', ok, p,
+          detail='' if ok else 'the caller\'s list object itself may reach the returned callable', key='partial-own-list')
+    return fn
+
+
 def transform_assembly(cx):
     """C06: one standard curve per calibrated channel; both lists bound in the returned callable."""
     fn = Fn(cx, 'mef.get_transform_fxn')
@@ -104,14 +122,7 @@ def transform_assembly(cx):
     ok = d1 == d2 and not mods
     fn.ob('PAIR', 'the channel list bound in the callable is the list the curves were computed for', ok, p,
           detail='' if ok else 'definitions differ or list modified', key='partial-channels')
-    # ... and the function's own: a copy (or a new one-element list), never the caller's list object, which the
-    # caller may reorder or reuse afterwards while the returned callable is still in use
-    own = [d for d in fn.rd.reaching(fn.node(p), 'mef_channels')]
-    vals = [fn.rd.assigned_value(d, 'mef_channels') if d.kind != 'entry' else None for d in own]
-    ok = bool(own) and all(d.kind != 'entry' for d in own) and all(
-        v is not None and sym.norm(v) in (sym.norm('list(mef_channels)'), sym.norm('[mef_channels]')) for v in vals)
-    fn.ob('PAIR', 'the channel list bound in the callable is a list of the function\'s own (copy of the caller\'s, or a new one-element list)', ok, p,
-          detail='' if ok else 'the caller\'s list object itself may reach the returned callable', key='partial-own-list')
+    own_channel_list(cx, fn, p, 'PAIR')
     check_order(fn, 'PAIR', 'calibrated channel list keeps the caller\'s order', 'mef_channels', loop, 'mef_channels')
     # returned value is that callable (plain or as field transform_fxn)
     tname = None
@@ -229,6 +240,15 @@ def calibration_workflow(cx):
                 and c.func.attr in ('sort', 'reverse', 'pop', 'append', 'insert', 'remove')]
         fn.ob('SLICE', 'the population list is defined by grouping and by the brightness sort only, before the channel loop', ok and not mods and not inpl,
               defs[-1] if defs else fn.ast, key='order-once')
+    # the default clustering channels are the channel LIST: the caller's own value (possibly a bare name or number) does not
+    # reach the defaulting statement, only the two normalising definitions do
+    dflt = [s_ for s_ in fn.stmts(ast.Assign) if len(s_.targets) == 1 and sym.norm(s_.targets[0]) == ('var', 'clustering_channels')
+            and sym.norm(s_.value) == ('var', 'mef_channels')]
+    if len(dflt) == 1:
+        rdefs = fn.rd.reaching(fn.node(dflt[0]), 'mef_channels')
+        ok = bool(rdefs) and all(d_.kind != 'entry' for d_ in rdefs)
+        fn.ob('SLICE', 'clustering channels default to the channel list (after a single channel was wrapped), not to the bare argument', ok,
+              dflt[0], detail='' if ok else 'the argument as passed by the caller reaches `%s`' % norm_stmt(dflt[0]), key='default-after-wrap')
     # accumulators
     names = accumulator_names(fn, loop)
     n = accumulators_once(cx, fn, loop, names)
